@@ -10193,7 +10193,7 @@ bool SoPlexBase<R>::writeBasisFile(const char* filename, const NameSet* rowNames
             if(colNames != nullptr && colNames->has(col))
                file << (*colNames)[col];
             else
-               file << "x" << col;
+               file << ("x" + std::to_string(col));
 
             file << "       ";
 
@@ -10216,7 +10216,7 @@ bool SoPlexBase<R>::writeBasisFile(const char* filename, const NameSet* rowNames
                if(colNames != nullptr && colNames->has(col))
                   file << (*colNames)[col];
                else
-                  file << "x" << col;
+                  file << ("x" + std::to_string(col));
 
                file << "\n";
             }
